@@ -10,10 +10,13 @@ import (
 	"go/ast"
 	"go/parser"
 	"go/token"
+	"go/types"
 	"os"
 	"path/filepath"
 	"sort"
 	"strings"
+
+	"golang.org/x/tools/go/packages"
 )
 
 type mutant struct {
@@ -31,7 +34,12 @@ type mutant struct {
 func main() {
 	dir := flag.String("dir", "/repo", "package directory")
 	second := flag.Bool("second", false, "second operator set: swapped adjacent statements, duplicated calls/sends")
+	third := flag.Bool("third", false, "third operator set (needs type information): a local variable or parameter replaced by another one of the identical type")
 	flag.Parse()
+	if *third {
+		thirdSet(*dir)
+		return
+	}
 	files, _ := filepath.Glob(filepath.Join(*dir, "*.go"))
 	sort.Strings(files)
 	var out []mutant
@@ -231,6 +239,153 @@ func main() {
 	enc := json.NewEncoder(os.Stdout)
 	enc.SetIndent("", " ")
 	if err := enc.Encode(out); err != nil {
+		panic(err)
+	}
+}
+
+// thirdSet: wrong-variable mutants. Every use of a local variable or parameter in an
+// argument list, index, return statement or right-hand side is replaced by each other
+// local or parameter of the same function with the identical type (declared before the use).
+func thirdSet(dir string) {
+	cfg := &packages.Config{Mode: packages.LoadSyntax, Dir: dir, Env: append(os.Environ(), "GOFLAGS=-mod=mod", "GOPROXY=off", "GOSUMDB=off", "GOWORK=off", "GOTOOLCHAIN=local")}
+	pkgs, err := packages.Load(cfg, ".")
+	if err != nil || len(pkgs) != 1 || len(pkgs[0].Errors) > 0 {
+		panic(fmt.Sprint("load: ", err, pkgs))
+	}
+	pkg := pkgs[0]
+	var out []mutant
+	for fi, af := range pkg.Syntax {
+		fname := pkg.CompiledGoFiles[fi]
+		if strings.HasSuffix(fname, "_test.go") {
+			continue
+		}
+		src, _ := os.ReadFile(fname)
+		base := filepath.Base(fname)
+		off := func(p token.Pos) int { return pkg.Fset.Position(p).Offset }
+		for _, d := range af.Decls {
+			fd, ok := d.(*ast.FuncDecl)
+			if !ok || fd.Body == nil {
+				continue
+			}
+			fn := fd.Name.Name
+			if fd.Recv != nil && len(fd.Recv.List) == 1 {
+				t := fd.Recv.List[0].Type
+				if s, ok := t.(*ast.StarExpr); ok {
+					t = s.X
+				}
+				if id, ok := t.(*ast.Ident); ok {
+					fn = id.Name + "." + fn
+				}
+			}
+			// candidate variables of the function (params, results, locals) with their declaration position
+			var vars []*types.Var
+			seen := map[*types.Var]bool{}
+			ast.Inspect(fd, func(n ast.Node) bool {
+				if id, ok := n.(*ast.Ident); ok {
+					if v, ok := pkg.TypesInfo.Defs[id].(*types.Var); ok && v != nil && !v.IsField() && id.Name != "_" && !seen[v] {
+						seen[v] = true
+						vars = append(vars, v)
+					}
+				}
+				return true
+			})
+			var visit func(n ast.Node, inUse bool)
+			emit := func(id *ast.Ident) {
+				v, ok := pkg.TypesInfo.Uses[id].(*types.Var)
+				if !ok || v == nil || v.IsField() || !seen[v] {
+					return
+				}
+				n := 0
+				for _, w := range vars {
+					if w == v || w.Name() == v.Name() || w.Pos() >= id.Pos() || !types.Identical(w.Type(), v.Type()) {
+						continue
+					}
+					// the replacement must be in scope at the use
+					if sc := w.Parent(); sc == nil || !(sc.Pos() <= id.Pos() && id.End() <= sc.End()) {
+						continue
+					}
+					if n >= 2 {
+						break
+					}
+					n++
+					st, en := off(id.Pos()), off(id.End())
+					out = append(out, mutant{File: base, Start: st, End: en, New: w.Name(), Op: "wrong-var " + v.Name() + "->" + w.Name(), Line: pkg.Fset.Position(id.Pos()).Line, Func: fn, Old: string(src[st:en])})
+				}
+			}
+			visit = func(n ast.Node, inUse bool) {
+				switch x := n.(type) {
+				case nil:
+					return
+				case *ast.Ident:
+					if inUse {
+						emit(x)
+					}
+				case *ast.CallExpr:
+					visit(x.Fun, false)
+					for _, a := range x.Args {
+						visit(a, true)
+					}
+				case *ast.SelectorExpr:
+					visit(x.X, inUse)
+				case *ast.IndexExpr:
+					visit(x.X, true)
+					visit(x.Index, true)
+				case *ast.ReturnStmt:
+					for _, r := range x.Results {
+						visit(r, true)
+					}
+				case *ast.AssignStmt:
+					for _, l := range x.Lhs {
+						if ie, ok := l.(*ast.IndexExpr); ok {
+							visit(ie, true)
+						}
+					}
+					for _, r := range x.Rhs {
+						visit(r, true)
+					}
+				case *ast.FuncLit:
+					visit(x.Body, false)
+				default:
+					ast.Inspect(n, func(c ast.Node) bool {
+						if c == n || c == nil {
+							return true
+						}
+						switch c.(type) {
+						case *ast.CallExpr, *ast.ReturnStmt, *ast.AssignStmt, *ast.FuncLit, *ast.IndexExpr:
+							visit(c, inUse)
+							return false
+						case *ast.Ident:
+							if inUse {
+								emit(c.(*ast.Ident))
+							}
+						}
+						return true
+					})
+				}
+			}
+			visit(fd.Body, false)
+		}
+	}
+	sort.Slice(out, func(i, j int) bool {
+		if out[i].File != out[j].File {
+			return out[i].File < out[j].File
+		}
+		return out[i].Start < out[j].Start
+	})
+	// dedupe
+	var uniq []mutant
+	for i, m := range out {
+		if i > 0 && m.File == out[i-1].File && m.Start == out[i-1].Start && m.New == out[i-1].New {
+			continue
+		}
+		uniq = append(uniq, m)
+	}
+	for i := range uniq {
+		uniq[i].ID = fmt.Sprintf("w%04d-%s-%d-%s", i, strings.TrimSuffix(uniq[i].File, ".go"), uniq[i].Line, strings.ReplaceAll(strings.ReplaceAll(strings.TrimPrefix(uniq[i].Op, "wrong-var "), ">", ""), " ", ""))
+	}
+	enc := json.NewEncoder(os.Stdout)
+	enc.SetIndent("", " ")
+	if err := enc.Encode(uniq); err != nil {
 		panic(err)
 	}
 }
